@@ -127,7 +127,7 @@ theorem notifyCore_liss {w : World} (h : Inv w) {n : Nat} {N : Noti} (hN : w.not
   rw [notifyCore_eq]
   have : ¬ w.cfg.idMax < id := by omega
   simp only [this, if_false]
-  show (deliver (setN w n (updateConns w N)) (targets (updateConns w N)) id).liss l = _
+  show (deliver (setN w n (prune w (updateConns w N) (targets (updateConns w N)))) (targets (updateConns w N)) id).liss l = _
   rw [deliver_liss]
   simp only [setN_liss]
   cases hL : w.liss l with
@@ -151,10 +151,29 @@ theorem notifyCore_oob (w : World) (n : Nat) (N : Noti) {id : Nat} (hid : w.cfg.
 theorem notifyCore_result (w : World) (n : Nat) (N : Noti) {id : Nat} (hid : id ≤ w.cfg.idMax) :
     (notifyCore w n N id).2 =
       if w.cfg.deadline = 2 then .error .missedDeadline
-      else .ok ((targets (updateConns w N)).filter (reaches (setN w n (updateConns w N)))).length := by
+      else .ok ((targets (updateConns w N)).filter (reaches w)).length := by
   rw [notifyCore_eq]
   have : ¬ w.cfg.idMax < id := by omega
   simp [this]
+
+/-- what a single-listener notification with a valid key does to the listeners: the keyed listener gets the id (if it lives),
+nobody else anything -/
+theorem notifyOneCore_liss (w : World) (n : Nat) (N : Noti) (slot l id : Nat) (a : Nat) :
+    (notifyOneCore w n N slot l id).1.liss a =
+      if w.cfg.idMax < id ∨ (updateConns w N).conns[slot]? ≠ some (some l) then w.liss a
+      else match w.liss a with
+        | some L => if a = l ∧ L.st = .alive then some { L with pending := insertId id L.pending } else some L
+        | none => none := by
+  rw [notifyOneCore_eq]
+  by_cases h1 : w.cfg.idMax < id
+  · simp [h1]
+  · by_cases h2 : (updateConns w N).conns[slot]? = some (some l)
+    · simp only [h1, h2, if_false, if_true, false_or, ne_eq, not_true_eq_false]
+      show (deliver (setN w n (prune w (updateConns w N) [l])) [l] id).liss a = _
+      rw [deliver_liss]
+      simp only [setN_liss, List.mem_singleton]
+      cases w.liss a <;> rfl
+    · simp [h1, h2]
 
 /-! ### what a listener keeps until its next wait -/
 
@@ -193,7 +212,16 @@ theorem Keeps.notifyCore (l : Nat) (w : World) (n : Nat) (N : Noti) (id : Nat) :
   rw [notifyCore_eq]
   split
   · exact Keeps.of_liss rfl
-  · exact (Keeps.of_liss (w' := setN w n (updateConns w N)) rfl).trans (Keeps.deliver l _ _ _ _)
+  · exact (Keeps.of_liss (w' := setN w n (prune w (updateConns w N) (targets (updateConns w N)))) rfl).trans (Keeps.deliver l _ _ _ _)
+
+theorem Keeps.notifyOneCore (l : Nat) (w : World) (n : Nat) (N : Noti) (slot a id : Nat) :
+    Keeps l w (notifyOneCore w n N slot a id).1 := by
+  rw [notifyOneCore_eq]
+  split
+  · exact Keeps.of_liss rfl
+  · split
+    · exact (Keeps.of_liss (w' := setN w n (prune w (updateConns w N) [a])) rfl).trans (Keeps.deliver l _ _ _ _)
+    · exact Keeps.of_liss rfl
 
 theorem Keeps.dropEmit (l : Nat) (w : World) (n : Nat) (N : Noti) : Keeps l w (dropEmit w n N) := by
   unfold EventPorts.dropEmit
@@ -307,6 +335,14 @@ theorem Keeps.step (l : Nat) (w : World) (op : Op) (hop : op ≠ .wait l) : Keep
     simp only [EventPorts.step]
     repeat' split
     all_goals first | exact Keeps.refl _ _ | exact Keeps.notifyCore l _ _ _ _
+  | keys n =>
+    simp only [EventPorts.step]
+    repeat' split
+    all_goals first | exact Keeps.refl _ _ | exact Keeps.of_liss rfl
+  | notifyOne n slot a id =>
+    simp only [EventPorts.step]
+    repeat' split
+    all_goals first | exact Keeps.refl _ _ | exact Keeps.notifyOneCore l _ _ _ _ _ _
   | wait a =>
     have hne : l ≠ a := by intro e; subst e; exact hop rfl
     simp only [EventPorts.step]
